@@ -52,8 +52,29 @@ ALLOW = {
         '(qube.py broadcast_to docstring); the property names this as the only side effect',
 }
 
+# POSSIBLE sites (target is a parameter's storage on SOME path, or a bare parameter updated with `op=`): each one has
+# been read and is listed here with the reason why it cannot modify an operand; a new one fails `no_unreviewed_possible`
+# and is given extra draws by the sweep (dynamic monitoring)
+POSSIBLE_OK = {
+    ('Qube.as_this_type', 'mutcall:insert_derivs', 'obj'):
+        'obj is the argument only when nothing was converted; otherwise it is a new object, a copy (read-only '
+        'argument) or — since fix 60822dc — a shallow clone of the argument',
+    ('Vector.to_pair', 'augname', 'i0'): 'i0 = axes[0] is an integer (immutable): `i0 -= n` rebinds the local',
+    ('Vector.int', 'augname', 'mask'): 'an array mask has been replaced by mask.copy() three lines above; a scalar '
+                                       'mask is a Python bool (immutable)',
+    ('Units.mul_units', 'setname', 'result'): 'guarded by `result is arg1 or result is arg2` (fix for #13): only a '
+                                              'newly created Units object is renamed',
+    ('Units.div_units', 'setname', 'result'): 'guarded by `result is arg1` (fix for #13): only a newly created Units '
+                                              'object is renamed',
+}
+
 # --------------------------------------------------------------------------------------------------------------
 FRESH, UNKNOWN = ('fresh',), ('unknown',)
+NEWOBJ = ('fresh', 'obj')     # a new Qube/Units object (its arrays may be the caller's: attributes are `unknown`)
+CLASS_NAMES = {'Qube', 'Scalar', 'Boolean', 'Vector', 'Vector3', 'Pair', 'Matrix', 'Matrix3', 'Quaternion', 'Polynomial',
+               'Units'}
+CTOR_STATICS = set()
+FRESHOP = ('fresh', 'op')      # result of an operator: a new ndarray, but a new Qube may share its operand's mask
 
 
 def PARAM(name, storage):
@@ -66,11 +87,22 @@ def SHALLOW(name):
     return ('shallow', name)
 
 
+def MAY(name, storage):
+    """on SOME path the storage of parameter `name` (path-sensitive may-alias; never an obligation failure by itself,
+    but every write through it is listed as a POSSIBLE site and must be on the reviewed list)"""
+    return ('may', name, storage)
+
+
 def join(a, b):
     if a == b:
         return a
     if a[0] == 'param' and b[0] == 'param' and a[1] == b[1]:
         return PARAM(a[1], a[2] and b[2])
+    for x, y in ((a, b), (b, a)):
+        if x[0] in ('param', 'may'):
+            return MAY(x[1], bool(x[2]) or (y[0] in ('param', 'may') and bool(y[2])))
+        if x[0] == 'shallow' and y[0] != 'shallow':
+            return UNKNOWN
     return UNKNOWN
 
 
@@ -101,11 +133,13 @@ class Fn:
     def __init__(self, qual, node, is_static):
         self.qual, self.node = qual, node
         self.sites = []
+        self.returns = []
         a = node.args
         names = [x.arg for x in a.posonlyargs + a.args + a.kwonlyargs]
         if a.vararg:
             names.append(a.vararg.arg)          # *args: a tuple of the caller's objects
         self.env0 = {n: PARAM(n, False) for n in names if n != 'cls'}
+        self.params = [n for n in names if n != 'cls']
 
     # ------------------------------------------------------------------ expressions
     def ev(self, e, env):
@@ -117,9 +151,17 @@ class Fn:
                 return SHALLOW(t[1])
             if t[0] in ('param', 'shallow') and (e.attr in STORAGE_ATTRS or e.attr.startswith('d_d')):
                 return PARAM(t[1], True)
+            if t[0] == 'may' and (e.attr in STORAGE_ATTRS or e.attr.startswith('d_d')):
+                return MAY(t[1], True)
+            if t == NEWOBJ and e.attr in ('__dict__', '_cache_', '_derivs_'):
+                return NEWOBJ                           # the new object's own dictionaries
             return UNKNOWN
         if isinstance(e, ast.Subscript):
             t = self.ev(e.value, env)
+            if t in (FRESH, FRESHOP) and is_basic_index(e.slice):
+                return t
+            if t[0] == 'may' and is_basic_index(e.slice):
+                return t
             if t[0] == 'param':
                 if isinstance(e.value, ast.Attribute) and e.value.attr in ('_derivs_', 'derivs'):
                     return PARAM(t[1], True)            # the derivative object held by the parameter
@@ -135,6 +177,10 @@ class Fn:
                 if isinstance(base, ast.Name) and base.id in ('np', 'numpy'):
                     if f.attr in NP_VIEW_FUNCS and e.args:
                         t = self.ev(e.args[0], env)
+                        if t in (FRESH, FRESHOP):
+                            return t                    # a view of a new array is new storage
+                        if t[0] == 'may' and t[2]:
+                            return t
                         return PARAM(t[1], True) if t[0] == 'param' and t[2] else UNKNOWN
                     if f.attr in NP_FRESH_FUNCS:
                         return FRESH
@@ -142,6 +188,10 @@ class Fn:
                 t = self.ev(base, env)
                 if f.attr in FRESH_METHODS:
                     return FRESH
+                if t in (FRESH, FRESHOP) and f.attr in ND_VIEW_METHODS:
+                    return t
+                if t[0] == 'may' and t[2] and f.attr in ND_VIEW_METHODS:
+                    return t
                 if t[0] == 'param':
                     if t[2] and f.attr in ND_VIEW_METHODS:
                         return PARAM(t[1], True)
@@ -151,19 +201,30 @@ class Fn:
                         return SHALLOW(t[1])
                 if t[0] == 'shallow' and f.attr in OBJ_SHALLOW:
                     return t
+                if f.attr == '__new__' or (f.attr.endswith('_CLASS') and isinstance(base, ast.Name)):
+                    return NEWOBJ                       # Qube.__new__(type(self)), Qube.BOOLEAN_CLASS(...)
+                if isinstance(base, ast.Name) and base.id in CLASS_NAMES and f.attr in CTOR_STATICS:
+                    return UNKNOWN
                 return UNKNOWN
+            if isinstance(f, ast.Name) and f.id in CLASS_NAMES:
+                return NEWOBJ                           # Scalar(...), Matrix(...): a new object (arrays may be shared)
+            if isinstance(f, ast.Call) and isinstance(f.func, ast.Name) and f.func.id == 'type':
+                return NEWOBJ                           # type(self)(...)
             return UNKNOWN
         if isinstance(e, (ast.BinOp, ast.UnaryOp, ast.Compare, ast.BoolOp)):
-            return FRESH if not isinstance(e, ast.BoolOp) else UNKNOWN
+            return FRESHOP if not isinstance(e, ast.BoolOp) else UNKNOWN
         if isinstance(e, ast.IfExp):
             return join(self.ev(e.body, env), self.ev(e.orelse, env))
         if isinstance(e, (ast.Dict, ast.List, ast.ListComp, ast.DictComp, ast.Set)):
-            return FRESH
+            return ('fresh', 'container')       # a new list/dict (its elements may be the caller's objects)
         return UNKNOWN
 
     # ------------------------------------------------------------------ write sites
     def site(self, node, kind, target, env):
         root = self.ev(target, env)
+        if root[0] == 'shallow' and kind in ('setitem', 'augitem'):
+            # item assignment to a shallow copy goes through Qube.__setitem__, which writes the SHARED arrays
+            root = PARAM(root[1], True)
         try:
             txt = ast.unparse(target)
         except Exception:
@@ -175,6 +236,8 @@ class Fn:
             v = tgt.value
             if isinstance(v, ast.Attribute) and v.attr == 'flags':
                 self.site(node, 'setflag', v.value, env)
+            elif isinstance(v, ast.Attribute) and v.attr == '_cache_':
+                pass            # the per-object cache is not operand state (values, mask, units, derivatives)
             else:
                 self.site(node, 'augitem' if aug else 'setitem', v, env)
         elif isinstance(tgt, ast.Attribute):
@@ -188,8 +251,9 @@ class Fn:
                                    'target': ast.unparse(tgt.value)[:60], 'root': root})
         elif isinstance(tgt, ast.Name) and aug:
             root = env.get(tgt.id, UNKNOWN)
-            if root[0] == 'param' and not root[2]:
-                root = UNKNOWN          # a bare parameter may be an immutable number (axis += 1): not definite
+            if root[0] in ('param', 'may') and not root[2]:
+                # a bare parameter may be an immutable number (axis += 1): not definite, but POSSIBLE (x_power *= x)
+                root = MAY(root[1], False)
             self.sites.append({'fn': self.qual, 'line': node.lineno, 'kind': 'augname', 'target': tgt.id, 'root': root})
         elif isinstance(tgt, (ast.Tuple, ast.List)):
             for t in tgt.elts:
@@ -285,6 +349,8 @@ class Fn:
             return self.block(s.body, env)
         if isinstance(s, (ast.Expr, ast.Return, ast.Raise, ast.Assert, ast.Delete)):
             self.calls(s, env)
+            if isinstance(s, ast.Return):
+                self.returns.append(self.ev(s.value, env) if s.value is not None else ('none',))
             return env
         return env
 
@@ -299,7 +365,24 @@ class Fn:
             else:
                 merged[k] = s
                 order.append(k)
-        return [merged[k] for k in order]
+        self.sites = [merged[k] for k in order]
+        return self.sites
+
+    def claim(self):
+        """what the function returns, if all return statements agree: operand:<param> | storage:<param> |
+        shallow:<param> | newarray | unknown"""
+        if not self.returns:
+            return 'none'
+        r = self.returns[0]
+        for x in self.returns[1:]:
+            r = join(r, x)
+        if r[0] == 'param':
+            return ('storage:' if r[2] else 'operand:') + r[1]
+        if r[0] == 'shallow':
+            return 'shallow:' + r[1]
+        if r == FRESH:
+            return 'newarray'
+        return 'unknown'
 
 
 # --------------------------------------------------------------------------------------------------------------
@@ -313,9 +396,13 @@ def repo_root():
     return os.path.dirname(os.path.abspath(polymath.__file__))
 
 
+FUNS = []
+
+
 def scan():
     root = repo_root()
     sites, nfun = [], 0
+    FUNS.clear()
     for fn in REPO_FILES:
         tree = ast.parse(open(os.path.join(root, fn)).read(), fn)
         for c in tree.body:
@@ -326,14 +413,125 @@ def scan():
                     static = any(isinstance(d, ast.Name) and d.id in ('staticmethod', 'classmethod')
                                  for d in m.decorator_list)
                     nfun += 1
-                    sites += Fn('%s.%s' % (c.name, m.name), m, static).run()
+                    f = Fn('%s.%s' % (c.name, m.name), m, static)
+                    sites += f.run()
+                    FUNS.append(f)
     for fn in EXT_FILES:
         tree = ast.parse(open(os.path.join(root, 'extensions', fn)).read(), fn)
         for m in tree.body:
             if isinstance(m, ast.FunctionDef) and _public(m.name):
                 nfun += 1
-                sites += Fn('Qube.%s' % m.name, m, False).run()
+                f = Fn('Qube.%s' % m.name, m, False)
+                sites += f.run()
+                FUNS.append(f)
     return sites, nfun
+
+
+# --------------------------------------------------------------------------------------------------------------
+# effect summaries generated from the per-function results (lean/PMV/Gen/Summaries.lean)
+RELAXED_OK = {
+    'Qube.broadcast_to': 'documented: broadcasting marks the operand read-only',
+    'Qube.as_all_constant': 'documented: "a shallow, read-only copy"; as_readonly on the clone freezes the arrays it '
+                            'shares with the operand (as_readonly: "the internal arrays will also cease to be writable '
+                            'in any other object that shares them")',
+    'Qube.copy': 'copy(readonly=True): as_readonly on the copy, whose arrays were replaced by duplicates just before '
+                 '(the analysis does not track the rebinding)',
+}
+WRITE_KINDS = ('setitem', 'augitem', 'augname', 'out=')
+
+
+def summarise(f):
+    """(rx, claim, [Eff…]) or None when a write site has an unknown root"""
+    effs, reg = [], [10]
+
+    def new():
+        reg[0] += 1
+        return reg[0]
+
+    def pidx(name):
+        return f.params.index(name) if name in f.params else 0
+
+    def shallow_obj(name, dst=None):
+        a, v, m, u = new(), new(), new(), new()
+        r = dst if dst is not None else new()
+        effs.extend(['.arg %d %d' % (a, pidx(name)), '.get %d %d .vals' % (v, a), '.get %d %d .mask' % (m, a),
+                     '.get %d %d .units' % (u, a), '.newObj %d %d %d %d' % (r, v, m, u)])
+        return r
+
+    for s in f.sites:
+        root, kind = s['root'], s['kind']
+        is_write = kind in WRITE_KINDS or kind.startswith('nd.') or kind.startswith('np.')
+        if root[0] in ('unknown', 'may'):
+            return None
+        if root[0] == 'fresh':
+            if is_write:
+                r = new(); effs += ['.fresh %d' % r, '.writeInto %d 0' % r]
+            elif kind == 'setflag' or kind == 'mutcall:as_readonly':
+                r = new(); effs += ['.fresh %d' % r, '.setFlag %d' % r]
+            elif kind == 'setname':
+                r = new(); effs += ['.newUnits %d' % r, '.setName %d 0' % r]
+            else:
+                r = new(); effs += ['.newObj %d 9 9 9' % r, '.rebind %d .vals 9' % r]
+        elif root[0] == 'shallow':
+            r = shallow_obj(root[1])
+            if kind == 'mutcall:as_readonly':
+                effs.append('.markRO %d' % r)
+            elif kind.startswith('mutcall:insert_deriv'):
+                d = new(); effs += ['.newObj %d 9 9 9' % d, '.setDeriv %d 0 %d' % (r, d)]
+            else:
+                effs.append('.rebind %d .vals 9' % r)
+        else:       # param
+            a = new(); effs.append('.arg %d %d' % (a, pidx(root[1])))
+            if root[2]:          # its storage
+                if kind == 'setname':
+                    u = new(); effs += ['.get %d %d .units' % (u, a), '.setName %d 0' % u]
+                else:
+                    v, w = new(), new()
+                    effs += ['.get %d %d .vals' % (v, a), '.view %d %d' % (w, v)]
+                    effs.append('.setFlag %d' % w if kind == 'setflag' else '.writeInto %d 0' % w)
+            else:                # the parameter object itself
+                if kind == 'mutcall:as_readonly':
+                    effs.append('.markRO %d' % a)
+                elif kind == 'setname':
+                    effs.append('.setName %d 0' % a)
+                elif kind == 'setflag':
+                    effs.append('.setFlag %d' % a)
+                elif is_write:
+                    w = new(); effs += ['.view %d %d' % (w, a), '.writeInto %d 0' % w]
+                else:
+                    effs.append('.rebind %d .vals 9' % a)
+    claim = f.claim()
+    if claim.startswith('operand:'):
+        effs.append('.arg 0 %d' % pidx(claim[8:]))
+    elif claim == 'newarray':
+        effs.append('.fresh 0')
+    elif claim.startswith('storage:'):
+        a = new(); effs += ['.arg %d %d' % (a, pidx(claim[8:])), '.get 0 %d .vals' % a]
+    elif claim.startswith('shallow:'):
+        shallow_obj(claim[8:], dst=0)
+    return (f.qual in RELAXED_OK, claim, effs)
+
+
+def render_summaries():
+    out = ['import PMV.Model.Heap',
+           '/- GENERATED by harness/c07_py2lean.py from the source of polymath — do not edit.',
+           '   One effect summary per public non-mutating function all of whose write sites have a definite root:',
+           '   the write sites in source order (each with the provenance of its target) and what is returned. -/',
+           'namespace PMV.Gen.C07S', 'open PMV.Heap', '',
+           'structure GenSummary where', '  fn : String', '  rx : Bool', '  claim : String', '  prog : List Eff', '',
+           'def summaries : List GenSummary := [']
+    rows, skipped = [], []
+    for f in FUNS:
+        sm = summarise(f)
+        if sm is None:
+            skipped.append(f.qual)
+            continue
+        rx, claim, effs = sm
+        rows.append('  ⟨%s, %s, %s, [%s]⟩' % (lean_str(f.qual), 'true' if rx else 'false', lean_str(claim),
+                                              ', '.join(effs)))
+    out.append(',\n'.join(rows))
+    out += [']', '', 'end PMV.Gen.C07S', '']
+    return '\n'.join(out), len(rows), skipped
 
 
 def lean_str(s):
@@ -345,6 +543,7 @@ def render(sites, nfun):
            '   %d public non-mutating functions scanned, %d write sites. -/' % (nfun, len(sites)),
            'namespace PMV.Gen.C07', '',
            'inductive Root where', '  | fresh', '  | unknown', '  | param (name : String) (storage : Bool)',
+           '  | may (name : String) (storage : Bool)',
            '  deriving DecidableEq, Repr', '',
            'structure WriteSite where', '  fn : String', '  line : Nat', '  kind : String', '  target : String',
            '  root : Root', '  allowed : Bool', '  deriving DecidableEq, Repr', '',
@@ -353,8 +552,9 @@ def render(sites, nfun):
     for s in sites:
         r = s['root']
         root = '.fresh' if r[0] in ('fresh', 'shallow') else '.unknown' if r[0] == 'unknown' else \
+            '.may %s %s' % (lean_str(r[1]), 'true' if r[2] else 'false') if r[0] == 'may' else \
             '.param %s %s' % (lean_str(r[1]), 'true' if r[2] else 'false')
-        allowed = (s['fn'], s['kind'], s['target']) in ALLOW
+        allowed = (s['fn'], s['kind'], s['target']) in ALLOW or (s['fn'], s['kind'], s['target']) in POSSIBLE_OK
         rows.append('  ⟨%s, %d, %s, %s, %s, %s⟩' % (lean_str(s['fn']), s['line'], lean_str(s['kind']),
                                                      lean_str(s['target']), root, 'true' if allowed else 'false'))
     out.append(',\n'.join(rows))
@@ -370,8 +570,13 @@ def regen():
     if not os.path.exists(path) or open(path).read() != body:
         with open(path, 'w') as f:
             f.write(body)
+    body2, nsum, skipped = render_summaries()
+    path2 = os.path.join(os.path.dirname(here), 'lean', 'PMV', 'Gen', 'Summaries.lean')
+    if not os.path.exists(path2) or open(path2).read() != body2:
+        with open(path2, 'w') as f:
+            f.write(body2)
     tainted = [s for s in sites if s['root'][0] == 'param' and (s['fn'], s['kind'], s['target']) not in ALLOW]
-    return {'obligations': 1, 'functions_scanned': nfun, 'write_sites': len(sites),
+    return {'obligations': 2, 'summaries_generated': nsum, 'not_summarised_unknown_root': len(skipped), 'functions_scanned': nfun, 'write_sites': len(sites),
             'param_rooted_not_allowed': ['%s:%d %s %s' % (s['fn'], s['line'], s['kind'], s['target']) for s in tainted],
             'table': 'lean/PMV/Gen/WriteSites.lean'}
 
@@ -382,6 +587,10 @@ if __name__ == '__main__':
         sys.path.insert(0, os.environ['PMV_REPO'])
     sites, nfun = scan()
     for s in sites:
-        if s['root'][0] == 'param' or '-v' in sys.argv:
+        if s['root'][0] in ('param', 'may') or '-v' in sys.argv:
             print(s)
     print(nfun, 'functions', len(sites), 'sites')
+    import collections
+    body, n, skipped = render_summaries()
+    print(n, 'summaries;', len(skipped), 'skipped:', skipped[:40])
+    print(collections.Counter(f.claim().split(':')[0] for f in FUNS))
